@@ -6,13 +6,14 @@ from . import common as K
 PROP = "C15"
 RULE = ("cases = histories of 5..60 operations on a fresh managed directory: create / overwrite files (nested directories), notify accesses (plain and '..'-decorated spellings), "
         "delete with notification, delete behind the manager's back, the same for paths OUTSIDE the managed directory, change the size / age limits, eviction passes, restarts "
-        "(drop + reopen on the same sqlite file); sizes and access times with ties, totals exactly at the limit, repeated passes with no activity in between. "
+        "(drop + reopen on the same sqlite file); sizes and access times with ties, totals exactly at the limit, repeated passes with no activity in between; a second stream of short histories on a fast clock "
+        "(time unit 6 s) in which real time passes between passes - with nothing happening meanwhile, or with an access / a creation / a settings change / a restart around the wait (model op Tick). "
         "Observed after every eviction / restart: inventory rows (hook dump, rowid order), directory listing inside and outside the root. "
         "non-trivial = some eviction pass of the history removed at least one row (measured on the model)")
 TRUSTED = ["SQLite: durability of the WAL database across drop/reopen, ORDER BY LastAccessTime on the indexed column returning ties in rowid order (observed; an order-only difference is verdict 4, not an alarm)",
            "the hooks QuotaManager::verif_perform_eviction / verif_rows (cfg samply_verif) run the same perform_eviction_if_needed the background task runs",
            "a crash between unlinking a file and deleting its row is not exercised (no kill point inside delete_files); the model's answer - the next pass forgets the row - is the NotFound branch that IS exercised by external deletions"]
-ASSUMPTIONS = ["access times are whole hours ago and the age limit is an odd number of half hours, so no row sits exactly on the age cut-off (SystemTime::now() moves between calls)",
+ASSUMPTIONS = ["access times are whole hours ago and the age limit is an odd number of half hours, so no row sits exactly on the age cut-off (SystemTime::now() moves between calls); on the fast clock the margin is 3 s of real time per pass",
                "notifications concern existing files (paths that cannot be canonicalised are compared textually by the code)"]
 
 
@@ -69,6 +70,30 @@ def gen(tier, rng, scale):
                 items.append(["r"])
         items.append(["e"])
         cases.append({"items": items})
+    # the clock alone: histories on a fast clock (a time unit of FAST_UNIT seconds instead of an hour) in which REAL time passes between passes - with nothing
+    # at all happening in between, or with some activity / a settings change / a restart before or after the wait
+    for ci in range((10 if quick else 48) * scale):
+        items = []
+        keys = []
+        for _ in range(rng.range(1, 4)):
+            k = rng.below(6)
+            items.append(["c", k, rng.choice([1, 50, 100]), rng.choice([0, 0, 1, 1, 2, 3])])
+            keys.append(k)
+        lim = rng.choice([1, 3, 3, 5])
+        items.append(["g", lim])
+        if rng.chance(1, 3):
+            items.append(["s", rng.choice([100, 150, 1000])])
+        items.append(["e"])
+        for _ in range(rng.choice([1, 1, 2])):
+            if rng.chance(1, 4):
+                items.append(rng.choice([["a", rng.choice(keys), 0, ""], ["c", 6 + rng.below(3), 10, rng.choice([0, 1])], ["g", rng.choice([lim, lim + 2])], ["r"], ["g", lim]]))
+            items.append(["w"])
+            if rng.chance(1, 5):
+                items.append(["a", rng.choice(keys), rng.choice([0, 1]), ""])
+            items.append(["e"])
+            if rng.chance(1, 4):
+                items.append(["e"])
+        cases.append({"items": items})
     return cases
 
 
@@ -76,8 +101,13 @@ def with_items(case, items):
     return {"items": items}
 
 
+FAST_UNIT = 6
+
+
 def _line(c, scratch):
     t = [scratch]
+    if any(it[0] == "w" for it in c["items"]):
+        t.append("U%d" % FAST_UNIT)
     for it in c["items"]:
         t += [str(x) for x in it if x != ""]
     return " ".join(t)
@@ -105,6 +135,8 @@ def _coq_op(it):
         return "Evict"
     if k == "r":
         return "Restart"
+    if k == "w":
+        return "Tick"
     raise ValueError(it)
 
 
@@ -119,8 +151,10 @@ def evaluate(cases):
     try:
         # several harness processes in parallel, each with its own scratch directory
         import concurrent.futures
-        idx = list(range(len(cases)))
-        parts = K.chunked(idx, 8)
+        # histories that wait for real time to pass get a process each (they run side by side), the others are spread over 8 processes
+        slow = [i for i, c in enumerate(cases) if any(it[0] == "w" for it in c["items"])]
+        parts = K.chunked([i for i in range(len(cases)) if i not in set(slow)], 8) + [[i] for i in slow]
+        parts = [p for p in parts if p]
         outl = [None] * len(cases)
 
         def work(pi):
@@ -132,12 +166,17 @@ def evaluate(cases):
             for i, l in zip(part, o):
                 outl[i] = l
 
-        with concurrent.futures.ThreadPoolExecutor(max_workers=8) as ex:
+        with concurrent.futures.ThreadPoolExecutor(max_workers=24) as ex:
             list(ex.map(work, range(len(parts))))
     finally:
         shutil.rmtree(base, ignore_errors=True)
     terms = []
-    for c, l in zip(cases, outl):
+    late = set()
+    for ci_, (c, l) in enumerate(zip(cases, outl)):
+        if " LATE" in l:
+            # the machine stalled inside a fast-clock history: real time ran away from the instants the case assigns to its passes - not judged
+            late.add(ci_)
+            l = l.replace(" LATE", "")
         panicked = False
         snaps = []
         for s in l.split(" | "):
@@ -168,7 +207,7 @@ def evaluate(cases):
     flat = [v for r in res for v in r]
     if len(flat) != len(cases):
         raise K.TieBroken("verdict count mismatch %d vs %d" % (len(flat), len(cases)))
-    return flat
+    return [3 if i in late else v for i, v in enumerate(flat)]
 
 
 def known(case):
